@@ -41,7 +41,17 @@ func runC17(c *core.Ctx) {
 		info := f.Info()
 		del := fieldCallIn(f, "Service.TSDBStore", "DeleteShard")
 		dsg := fieldCallIn(f, "Service.MetaClient", "DeleteShardGroup")
-		delSites := findOrAbort(c, f, "TSDBStore.DeleteShard", evCall(del), 1)
+		// the deletion loop may have been extracted into an unexported helper that receives the map
+		host := f
+		for _, g := range withLocalHelpers(c.P, f) {
+			if len(g.Graph().Find(evCall(fieldCallIn(g, "Service.TSDBStore", "DeleteShard")))) > 0 {
+				host = g
+				break
+			}
+		}
+		hinfo := host.Info()
+		hdel := fieldCallIn(host, "Service.TSDBStore", "DeleteShard")
+		delSites := findOrAbort(c, host, "TSDBStore.DeleteShard", evCall(hdel), 1)
 		// the map consulted before deleting
 		var mapObj types.Object
 		for i, e := range delSites {
@@ -50,7 +60,8 @@ func runC17(c *core.Ctx) {
 			good := false
 			why := "the argument of DeleteShard must be a shard id that was found in the map of deletable shards"
 			if ok {
-				st := f.Flow().In[e]
+				info := hinfo
+				st := host.Flow().In[e]
 				for k, fct := range st {
 					if k.Root == nil || k.Path != "" || fct.Bool != 1 {
 						continue
@@ -69,6 +80,32 @@ func runC17(c *core.Ctx) {
 			}
 			c.Check("delete-only-listed-shards", fmt.Sprintf("%s/DeleteShard#%d", f.Name, i+1), c.P.Pos(e.Pos()), good, why)
 		}
+		// when the lookup happens in a helper, the map is one of its parameters: follow it to the caller's variable
+		if host != f && mapObj != nil && host.Decl != nil {
+			idx, k := -1, 0
+			for _, fld := range host.Decl.Type.Params.List {
+				for _, nm := range fld.Names {
+					if hinfo.Defs[nm] == mapObj {
+						idx = k
+					}
+					k++
+				}
+				if len(fld.Names) == 0 {
+					k++
+				}
+			}
+			mapObj = nil
+			if idx >= 0 {
+				for _, e := range f.Graph().Events {
+					if e.Kind == core.EvCall && e.Callee == types.Object(host.Obj) && idx < len(e.Call.Args) {
+						if id, ok := ast.Unparen(e.Call.Args[idx]).(*ast.Ident); ok {
+							mapObj = info.ObjectOf(id)
+						}
+					}
+				}
+			}
+		}
+		_ = del
 		c.Need(mapObj != nil, "map of deletable shard ids")
 		// every store into that map
 		n := 0
